@@ -108,6 +108,15 @@ func c01Check(w *l1World, st *l1Step, pre, post c01Frame) error {
 			// a plain bank transfer may credit any escrow; only the non-bank part is compared
 			continue
 		}
+		if st.Kind == "claim" && st.Tuple != nil && st.Tuple.To == sdk.AccAddress(escrowAddr(id)).String() {
+			// the withdrawal names this bridge's escrow account as its L1 recipient: the payout arrives there
+			// (the ledger above accounts for it); everything else about the bridge stays as it was
+			cut := func(d string) string { return d[:strings.LastIndex(d, "escrow=")] }
+			if cut(pre.bridges[id]) != cut(post.bridges[id]) {
+				return fmt.Errorf("claim addressed to bridge %d changed records of bridge %d:\n before %s\n after  %s", st.Bridge, id, pre.bridges[id], post.bridges[id])
+			}
+			continue
+		}
 		if pre.bridges[id] != post.bridges[id] {
 			return fmt.Errorf("%s addressed to bridge %d changed bridge %d:\n before %s\n after  %s", st.Kind, st.Bridge, id, pre.bridges[id], post.bridges[id])
 		}
@@ -122,6 +131,17 @@ func c01Check(w *l1World, st *l1Step, pre, post c01Frame) error {
 		}
 	}
 	return nil
+}
+
+// allTuples lists every withdrawal the history has invented, per bridge.
+func (w *l1World) tupleMap() map[string]wd {
+	m := map[string]wd{}
+	for _, id := range w.ids {
+		for _, t := range w.bridges[id].Pool {
+			m[fmt.Sprintf("%d|%s", id, t.key())] = t
+		}
+	}
+	return m
 }
 
 func henvDiff(w *l1World, pre, post c01Frame) string {
@@ -161,6 +181,17 @@ func TestC01Rapid(t *testing.T) {
 				// a long run of pending outputs (more than any per-message bound a handler might have)
 				w.bulkPropose(rt, w.bridges[w.ids[0]], rapid.SampledFrom([]int{120, 257, 300}).Draw(rt, "bulkN"))
 				c.Class("bridge-with-a-long-run-of-pending-outputs")
+				pre = w.frame()
+			}
+			if rapid.IntRange(0, 24).Draw(rt, "roundtrip") == 0 {
+				// the chain is exported and restarted from its genesis in the middle of the history: every
+				// bridge keeps its own records (the claims below are judged by the same ledger as before)
+				w.e = importL1(w.e, w.e.K.ExportGenesis(w.e.Ctx))
+				w.logf("genesis export -> import")
+				c.Class("genesis-round-trip-inside-history")
+				if err := c02Claimed(w, w.tupleMap()); err != nil {
+					rt.Fatalf("C01 violated at step %d: after a restart from the exported genesis the claim records of a bridge differ: %v\nhistory:\n%s", i, err, w.history())
+				}
 				pre = w.frame()
 			}
 			st := w.step(rt)
